@@ -46,6 +46,13 @@ func c13relClose(a, b float64) bool {
 	return math.Abs(a-b) <= 5e-9*math.Max(math.Abs(a), math.Abs(b))
 }
 
+// c13intExact reports whether want is an integer of up to 32 bits (which the
+// format stores exactly) that came back as another value.  It is applied to
+// the scalar numbers of the dictionaries; matrix entries are reals throughout.
+func c13intLost(got, want float64) bool {
+	return want == math.Trunc(want) && math.Abs(want) <= math.MaxInt32 && got != want
+}
+
 // c13real draws a real number with d significant digits and magnitude class.
 func c13real(r *rand.Rand, minExp, maxExp int) float64 {
 	d := 1 + r.IntN(12)
@@ -62,7 +69,9 @@ func c13real(r *rand.Rand, minExp, maxExp int) float64 {
 }
 
 var c13intBoundaries = []int32{0, 1, -1, 107, 108, -107, -108, 1131, 1132, -1131, -1132, 32767, 32768, -32768, -32769, 65535, 65536,
-	math.MaxInt32, math.MinInt32, math.MaxInt32 - 1, math.MinInt32 + 1, 1 << 24, -(1 << 24), 1000, -1000}
+	math.MaxInt32, math.MinInt32, math.MaxInt32 - 1, math.MinInt32 + 1, 1 << 24, -(1 << 24), 1000, -1000,
+	// integers that are long in decimal but close to a short power-of-ten form
+	40000, 100000, 999999999, 1000000000, 1000000001, -1000000001, 1500000002, 2000000004, -2000000004}
 
 func c13int(r *rand.Rand) int32 {
 	switch r.IntN(4) {
@@ -1108,7 +1117,7 @@ func c13check(k *mon.Case, sp *c13spec) {
 	}{{cffmini.OpIsFixedPitch, "isFixedPitch", 0, fp}, {cffmini.OpItalicAngle, "ItalicAngle", 0, f.ItalicAngle},
 		{cffmini.OpUnderlinePosition, "UnderlinePosition", -100, float64(f.UnderlinePosition)},
 		{cffmini.OpUnderlineThickness, "UnderlineThickness", 50, float64(f.UnderlineThickness)}} {
-		if got := mf.Top.Num(s.op, s.def); !sp.bytesClose(k, got, s.want) {
+		if got := mf.Top.Num(s.op, s.def); !sp.bytesClose(k, got, s.want) || c13intLost(got, s.want) {
 			k.Fail("mismatch", "bytes:top:"+s.name, "Top DICT %s decodes to %v, source %v", s.name, got, s.want)
 		}
 	}
@@ -1264,7 +1273,7 @@ func c13check(k *mon.Case, sp *c13spec) {
 	}{{"ItalicAngle", bi.ItalicAngle, fi.ItalicAngle}, {"UnderlinePosition", float64(bi.UnderlinePosition), float64(fi.UnderlinePosition)},
 		{"UnderlineThickness", float64(bi.UnderlineThickness), float64(fi.UnderlineThickness)}} {
 		// the reader normalises the angle through (x+180) mod 360 - 180, which costs an absolute 3e-14
-		if !sp.rtClose(k, s.got, s.want) && !(s.name == "ItalicAngle" && math.Abs(s.got-s.want) <= 1e-12) {
+		if (!sp.rtClose(k, s.got, s.want) || s.name != "ItalicAngle" && c13intLost(s.got, s.want)) && !(s.name == "ItalicAngle" && math.Abs(s.got-s.want) <= 1e-12) {
 			k.Fail("mismatch", "roundtrip:fontinfo:"+s.name, "%s: %v came back as %v", s.name, s.want, s.got)
 		}
 	}
